@@ -84,4 +84,18 @@ def fuseWithSites (ops : Array (Op K)) (inputs : List Nat) : Array (Op K) × Lis
     if acc.any (fun d => d.mulIdx = c.mulIdx) then acc else acc ++ [c]) []
   (Fusion.apply ops valid, chosen.filterMap siteOfCand)
 
+/-- Shape hypothesis of the total theorem (`P3R.C03.fuse_passes_check`): a plain `Add` / `Mul`
+(`c = None`) carries no `intermediate_out`. It is what `Op::add` / `Op::mul` construct
+(`ops/op.rs`), what lowering emits and what de-duplication preserves; the certificate check
+compares ops syntactically, so it is also necessary for the *check* (see
+`P3R.Witness.C03FusionTotal`). -/
+def fusableShape : Op K → Bool
+  | .alu .add _ _ none _ (some _) => false
+  | .alu .mul _ _ none _ (some _) => false
+  | _ => true
+
+/-- Well-formedness of the input of the fusion pass under which `fuse` provably passes its
+certificate check. The private-input slots do not enter: the pass protects them itself. -/
+def fuseInputOk (ops : Array (Op K)) (_inputs : List Nat) : Bool := ops.toList.all fusableShape
+
 end P3R
